@@ -1587,6 +1587,10 @@ class Interp:
             except BreakSignal:
                 if spec.on_break is None:
                     raise Unsupported(f"break inside cut loop `{label}`")
+                if spec.on_break == "continue":
+                    # the loop is left at an arbitrary iteration i (state: invariant at i, then the body up to the break): execution goes on
+                    # behind the loop on this path; the exit mode below covers the runs in which no break happens
+                    return
                 ex.oblige(oname + ":break", spec.on_break(self, fr, i, seq))
                 raise PathEnd()
             if spec.heap_frame is not None:
